@@ -273,3 +273,68 @@ func ZZ_C06_EndWhileBlocked() {
 	zzverif.Assert(s.e.logger.errors == 0, "library logged a channel panic/error for a clean end")
 	zzverif.Reach("done")
 }
+
+// zzTokenQueue is a bounded write queue with the wake-up protocol of the real one: a refused write,
+// then WriteWait hands out a channel on which ONE notification arrives when space appears.
+type zzTokenQueue struct {
+	zzQueue
+	full bool
+	wake chan struct{}
+	hook func()
+}
+
+func (q *zzTokenQueue) Write(msg []byte) (bool, status.Status) {
+	if q.closed {
+		return false, status.End
+	}
+	if q.full {
+		return false, status.OK
+	}
+	return q.zzQueue.Write(msg)
+}
+func (q *zzTokenQueue) WriteWait(size int) <-chan struct{} {
+	if h := q.hook; h != nil {
+		q.hook = nil
+		h()
+	}
+	return q.wake
+}
+
+// zzLateCancelCtx is a caller context that is cancelled at the moment the code asks for its status
+// (a cancellation may land at any time, also right after the caller was woken up).
+type zzLateCancelCtx struct {
+	zzCtx
+	asked int
+}
+
+func (c *zzLateCancelCtx) Status() status.Status {
+	c.asked++
+	c.Cancel()
+	return c.zzCtx.Status()
+}
+
+// ZZ_C06_WakeupNotLost: a sender of channel A waits for space in the connection's full write queue;
+// space appears and the queue's single wake-up reaches it; A's context is cancelled right after the
+// wake-up (its channel has just been ended). Whatever A's call returns, the space must not be lost
+// for the other waiters: either A's frame went into the queue, or the wake-up is still there.
+func ZZ_C06_WakeupNotLost() {
+	e := zzNewConn(false, nil, true)
+	e.shaken.Set()
+	q := &zzTokenQueue{full: true, wake: make(chan struct{}, 1)}
+	q.wait = make(chan struct{}, 1)
+	e.c.writeq = q
+	q.hook = func() {
+		q.full = false      // the send loop drained the queue
+		q.wake <- struct{}{} // and its one notification goes to the first waiter
+	}
+	msg, err := pmpx.BuildChannelData(pmpx.NewMessageWriterBuffer(ZZ_AcquireBuffer()), bin.Bin128{{1}, {1}}, zzverif.Bytes(1))
+	zzverif.Assume(err == nil)
+	ctx := &zzLateCancelCtx{zzCtx: *zzNewCtx()}
+	st := e.c.send(ctx, msg)
+	wrote := len(q.msgs) == 1
+	zzverif.Assert(wrote || len(q.wake) == 1, "a woken sender left without using the space or passing the wake-up on: other waiters stay parked")
+	if wrote {
+		zzverif.Assert(st.OK(), "frame enqueued but the call reports failure")
+	}
+	zzverif.Reach("done")
+}
